@@ -204,7 +204,19 @@ fn lifecycle(ctx: &GenCtx, rng: &mut Rng, _run: u64, full: bool) -> Plan {
     if start != 0 {
         plan.ops.push(Op::Inject { key: 0, counter: start });
     }
-    plan.note = format!("{} start={} crashy={} faults={}% full={}", crate::exec::shape_string(hash, &params), start, crashy, fault_pct, full);
+    // swarm over the shape of the history itself: how often the remaining lifetime is asked for (only on the
+    // fresh key and at the very end / now and then / after every signature), whether the handle is ever
+    // dropped and reloaded, and which entry points sign — one live SigningKey object for a whole life with no
+    // query in between is a different history from one that is reloaded and queried all the time
+    let query_mode = *rng.weighted(&[(2, 0u8), (5, 1), (2, 2)]);
+    let reload_mode = *rng.weighted(&[(1, 0u8), (3, 1)]);
+    let api_mode = *rng.weighted(&[(5, 0u8), (1, 1), (2, 2), (1, 3)]);
+    let crashy = crashy && reload_mode != 0;
+    if query_mode != 1 || rng.chance(1, 2) {
+        plan.ops.push(Op::Load { proc: 0, how: if api_mode == 1 { LoadAs::Bytes } else { LoadAs::Object } });
+        plan.ops.push(Op::Lifetime { proc: 0 });
+    }
+    plan.note = format!("{} start={} crashy={} faults={}% full={} queries={} reloads={} apis={}", crate::exec::shape_string(hash, &params), start, crashy, fault_pct, full, query_mode, reload_mode, api_mode);
     let mut signs = 0;
     // upper bound on ops so that fault-heavy runs still end
     let mut guard = n_signs * 4 + 20;
@@ -212,18 +224,23 @@ fn lifecycle(ctx: &GenCtx, rng: &mut Rng, _run: u64, full: bool) -> Plan {
     while signs < n_signs && guard > 0 {
         guard -= 1;
         match rng.below(20) {
-            0 => plan.ops.push(Op::Lifetime { proc: 0 }),
-            1 => plan.ops.push(Op::Load { proc: 0, how: *rng.pick(&[LoadAs::Bytes, LoadAs::Object]) }),
+            0 if query_mode != 0 => plan.ops.push(Op::Lifetime { proc: 0 }),
+            1 if reload_mode != 0 => plan.ops.push(Op::Load { proc: 0, how: *rng.pick(&[LoadAs::Bytes, LoadAs::Object]) }),
             2 if crashy => plan.ops.push(Op::Kill { proc: 0 }),
             _ => {
-                let api = *rng.weighted(&[(5, Api::Fn), (3, Api::Obj), (2, Api::ObjAux)]);
+                let api = match api_mode {
+                    1 => Api::Fn,
+                    2 => Api::Obj,
+                    3 => Api::ObjAux,
+                    _ => *rng.weighted(&[(5, Api::Fn), (3, Api::Obj), (2, Api::ObjAux)]),
+                };
                 let cb = if rng.below(100) < fault_pct { fault_cb(rng, crashy) } else { Cb::Accept };
                 let aux = if with_aux && rng.chance(1, 2) { Some(0) } else { None };
                 plan.ops.push(Op::Sign { proc: 0, msg: msg(rng, hash.n()), api, cb, aux });
                 signs += 1;
                 if matches!(cb, Cb::Accept) {
                     successes += 1;
-                    if rng.chance(1, 6) {
+                    if query_mode == 2 || (query_mode == 1 && rng.chance(1, 6)) {
                         plan.ops.push(Op::Lifetime { proc: 0 });
                     }
                 }
